@@ -120,12 +120,20 @@ func floatTable(d *getoptions.VerifDump, argv []string) (map[string]*float64, []
 
 // runParse builds the program, runs Parse on argv and renders the Coq case.
 func runParse(idx int, seed int64, p *ProgDef, argv []string) *ParseObs {
+	return runParseWith(seed, p, argv, nil)
+}
+
+// runParseWith - hook receives the built program (for Dispatch afterwards).
+func runParseWith(seed int64, p *ProgDef, argv []string, hook func(*Built)) *ParseObs {
 	obs := &ParseObs{Seed: seed, Prog: p, Argv: argv, ArgvQ: quoteAll(argv)}
 	obs.Key = fmt.Sprintf("%x", sha1.Sum([]byte(fmt.Sprintf("%#v|%q", jsonOf(p), argv))))
 	b, err := Build(p)
 	if err != nil {
 		obs.BuildErr = err.Error()
 		return obs
+	}
+	if hook != nil {
+		hook(b)
 	}
 	pre := b.Opt.VerifDumpTree()
 	meta := metaOf(p)
@@ -307,6 +315,8 @@ func main() {
 		cmdParse(os.Args[2:])
 	case "tok":
 		cmdTok(os.Args[2:])
+	case "dispatch":
+		cmdDispatch(os.Args[2:])
 	default:
 		fmt.Fprintln(os.Stderr, "unknown subcommand", os.Args[1])
 		os.Exit(2)
